@@ -3,6 +3,7 @@ package main
 // VC context, symbolic state, obligations.
 
 import (
+	"os"
 	"fmt"
 	"go/ast"
 	"go/token"
@@ -97,6 +98,8 @@ type VC struct {
 	notes     []string
 	inlined   map[string]bool
 	assumedContracts map[string]bool
+	mentions         map[string]bool // identifiers mentioned by the contract under verification (closed under preds)
+	calledContracts  map[string]bool // every contract applied at a call site (verified or not): its post-conditions were assumed there
 	inlineDepth int
 	callOrd   map[string]int
 	retOrd    int
@@ -125,6 +128,8 @@ type VC struct {
 	pendingTargs map[*types.TypeParam]types.Type
 	constSort map[string]string
 	abandonPath bool
+	cutState    *State // state at the construct that triggers the concurrency cut (set by the caller of concurrency())
+	cutAsserted bool
 	usedLemmas map[string]bool
 	rangeAsserted map[string]bool
 	recvOrd   int
@@ -233,9 +238,75 @@ func (vc *VC) unsupportedf(pos token.Pos, format string, args ...any) {
 	vc.unsupported = append(vc.unsupported, msg)
 }
 
+// splitAnd: top-level conjuncts of an SMT term "(and a b ...)" (diagnosis aid, GOVC_SPLIT=1)
+func splitAnd(g string) []string {
+	g = strings.TrimSpace(g)
+	if !strings.HasPrefix(g, "(and ") || !strings.HasSuffix(g, ")") {
+		return []string{g}
+	}
+	body := g[5 : len(g)-1]
+	var parts []string
+	depth, start := 0, -1
+	for i := 0; i < len(body); i++ {
+		c := body[i]
+		switch {
+		case c == '(':
+			if depth == 0 && start < 0 {
+				start = i
+			}
+			depth++
+		case c == ')':
+			depth--
+			if depth == 0 && start >= 0 {
+				parts = append(parts, body[start:i+1])
+				start = -1
+			}
+		case c == ' ' || c == '\n' || c == '\t':
+			if depth == 0 && start >= 0 {
+				parts = append(parts, body[start:i])
+				start = -1
+			}
+		default:
+			if depth == 0 && start < 0 {
+				start = i
+			}
+		}
+	}
+	if start >= 0 {
+		parts = append(parts, body[start:])
+	}
+	var out []string
+	for _, p := range parts {
+		out = append(out, splitAnd(p)...)
+	}
+	return out
+}
+
 func (vc *VC) emit(st *State, kind, clause, site, goal string, pos token.Pos, src string) {
 	if goal == "true" {
 		return
+	}
+	if os.Getenv("GOVC_SPLIT") != "" && kind != "vacuity" {
+		if parts := splitAnd(goal); len(parts) > 1 {
+			for i, p := range parts {
+				pc := append([]string(nil), st.pc...)
+				pc = append(pc, st.guards...)
+				nm := clause
+				if site != "" {
+					nm = clause + "@" + site
+				}
+				ps := ""
+				if pos.IsValid() {
+					ps = vc.eng.pos(pos)
+				}
+				short := p
+				if len(short) > 160 {
+					short = short[:160]
+				}
+				vc.obls = append(vc.obls, &Obligation{Name: fmt.Sprintf("%s#%d", nm, i+1), Clause: clause, Kind: kind, Func: vc.fn.Key, Goal: p, PC: pc, Pos: ps, Src: short})
+			}
+			return
+		}
 	}
 	pc := append([]string(nil), st.pc...)
 	if len(st.guards) > 0 {
@@ -270,6 +341,12 @@ func (vc *VC) epochTerm(e int, key string) string {
 	case "entry":
 		t = "H0_" + sanitize(key)
 		vc.declare(t, arrSort)
+		if es == "Int" && vc.eng.fieldIsRef(key) && os.Getenv("GOVC_NOCLOSURE") == "" {
+			// no dangling pointers at entry: a pointer / interface field of an existing object is nil, a boxed value, or an existing object
+			d := fmt.Sprintf("(assert (forall ((r_m Int)) (! (=> (select alloc0 r_m) (or (<= (select %s r_m) 0) (select alloc0 (select %s r_m)))) :pattern ((select %s r_m)))))", t, t, t)
+			vc.defs = append(vc.defs, d)
+			vc.defOf[t] = d
+		}
 	case "havoc":
 		t = fmt.Sprintf("H%d_%s", e, sanitize(key))
 		vc.declare(t, arrSort)
